@@ -91,7 +91,14 @@ HelperOK(r) ==
                     THEN WithinQuot(t, r.out[1], <<<<a[1]>>, <<D!DNeg(D!DOne), a[2]>>>>, <<<<a[3]>>, <<D!DNeg(D!DOne), a[2]>>>>)
                ELSE IF D!DCmpAbs(n, D!DMul(D!DScale(lim, 2), d)) > 0 THEN D!DIsZero(out)   \* |n/d| > 4 max: 0, not inf
                ELSE I!IsFinite(Fm(t), I!Dec(t, r.out[1]))
-      [] r.fn = "clamp" -> D!DEq(out, IF D!DLt(a[1], a[2]) THEN a[2] ELSE IF D!DLt(a[3], a[1]) THEN a[3] ELSE a[1])
+      \* clamp(a, l, h) = (a < l) ? l : ((a > h) ? h : a) on IEEE data: a comparison with a NaN is false (so a NaN value comes
+      \* back, a NaN bound is ignored), the chosen operand is returned as it is (sign of zero included), the low bound is
+      \* tested first (inverted ranges)
+      [] r.fn = "clamp" ->
+           LET f == Fm(t)  x == I!Dec(t, r.a[1])  lo == I!Dec(t, r.a[2])  hi == I!Dec(t, r.a[3])
+               lt(u, v) == ~I!IsNaN(f, u) /\ ~I!IsNaN(f, v) /\ D!DLt(I!Val(f, u), I!Val(f, v))
+               want == IF lt(x, lo) THEN lo ELSE IF lt(hi, x) THEN hi ELSE x
+           IN  I!SameOrNaN(f, I!Dec(t, r.out[1]), want)
       [] r.fn = "cmp" -> D!DEq(out, D!DInt(D!DSign(D!DSub(a[1], a[2]))))
       [] r.fn = "abs" -> D!DEq(out, D!DAbs(a[1]))
       [] r.fn = "sign" -> D!DEq(out, D!DInt(D!DSign(a[1])))
